@@ -481,10 +481,15 @@ def run(ctx):
     return common.pipeline(
         ctx, [('LikelihoodMC', 'LikelihoodMC_%s.cfg' % ctx.tier)], 'Trace_Likelihood', recs,
         nontrivial_of=nontrivial, mutator=mutate,
-        rule='random 1-3-D model/data pairs: integer counts, data projected down by dadi (non-integer), zeros, model zero where data zero, '
-             'independent random masks on both, folded data with unfolded or folded model; every listed Inference function per pair plus '
-             'll_multinom(c*model) and ll_multinom(c\'*data) vs a competitor; distinct by (function, ndim, data folded, model folded, '
-             'masks differ, non-integer data, unmasked zero datum, masking level given)',
+        rule='every tier draws on purpose (PAIR_CONFIGS): each dimension 1-3 x each kind of data (integer counts, projected by dadi, mixed), '
+             'each folding mode (none, data only, both) with each dimension and kind, nine independent mask-mode pairs incl. equal masks and '
+             'masks that differ with both corners unmasked, both parities of the total sample size, C / Fortran / strided input arrays, integer '
+             'dtype data, the smallest 1-D and 2-D spectra, counts up to 1e6, model zero where the datum is zero, an unmasked zero datum; '
+             'residual levels None / 0 / 0.01 / 0.5 / 2 in rotation and a hand-made pair with model and data exactly at the level; rescaling '
+             'factors 1e-3 and 1e3.  Plus random pairs (30 quick, 450 thorough), and for every second pair three evaluate / edit-in-place / '
+             'evaluate steps on the same objects.  Every listed Inference function per pair plus ll_multinom(c*model) and '
+             'll_multinom(c\'*data) vs a competitor; distinct by (function, edit, ndim, data folded, model folded, masks differ, '
+             'non-integer data, unmasked zero datum, masking level given)',
         assumptions=['ln, lnGamma and roots are supplied by the recorder from the stdlib math module at arguments that TLC checks exactly '
                      '(roots are verified by exact powering, ln values by 1-1/x <= ln x <= x-1); libm is trusted to 1e-15',
                      'tolerance Tau = 1e-9 relative to the sum of the magnitudes of the likelihood terms (per entry for ll_per_bin and residuals)',
